@@ -30,6 +30,10 @@ def run(ck):
     lists = [[a] for a in ITEMS] + [[a, b] for a in ITEMS for b in ITEMS]
     if not q:
         lists += [list(c) for c in itertools.product(ITEMS[:9], repeat=3)]
+    # duplicates before / after the matching item, and repeated matching items
+    for m in NAMES:
+        for d in (b'zz', b'a', m):
+            lists += [[d, d, m], [m, d, d], [d, m, d], [d, d, d, m]]
     fill = [b'f%02d' % i for i in range(49)]
     for m in (b'cron', b'a b', b'(x)'):
         lists += [[m] + fill, fill[:25] + [m] + fill[25:], fill + [m], fill[:20] + [m, m] + fill[20:48], fill + [b'zz']]
